@@ -437,6 +437,14 @@ func YieldDeep(site string) {
 		return
 	}
 	s.deepLeft--
+	// computing takes time: at one kernel-level point in eight the task also lets 1-64 microseconds
+	// of simulated time pass (durations measured around a kernel are then non-zero and differ
+	// between tasks); the choice is part of the schedule tape
+	if s.Sched.Choose(8) == 7 {
+		d := time.Duration(1+s.Sched.Choose(64)) * time.Microsecond
+		Yield(site)
+		time.Sleep(d)
+	}
 	Yield(site)
 }
 
